@@ -32,6 +32,8 @@ OpSpace ==
     \cup [op : {"openat"}, dir : {0}, name : {3, 0}, fl : {4}, h : 0..1, mode : 0..1]
     \cup [op : {"openat"}, dir : {0}, name : {3, 0}, fl : {5}, h : {0}, mode : {0}]
     \cup [op : {"openat"}, dir : {0}, name : {7, 0}, fl : {6}, h : {1}, mode : {0}]
+    \* flags that only show in the properties of the new descriptor: 7 = O_RDONLY|O_CLOEXEC|O_NONBLOCK, 8 = O_WRONLY|O_APPEND
+    \cup [op : {"openat"}, dir : {0, 1}, name : {0}, fl : {7, 8}, h : 0..1, mode : {0}]
     \cup [op : {"close"}, h : Handles]
     \cup [op : {"readv"}, h : 0..1, len : 0..1]          \* handles 0,1 hold files/directories, handle 2 sockets:
     \cup [op : {"writev"}, h : 0..1, data : 0..1]        \* no transfer that could block forever on a socket
@@ -46,8 +48,9 @@ OpSpace ==
     \cup [op : {"unlinkat"}, dir : {0}, name : {0, 1, 2, 3, 4, 7}, rmdir : 0..1]
     \cup [op : {"unlinkat"}, dir : {1}, name : {0, 5}, rmdir : 0..1]
     \cup {[op |-> "renameat", dir |-> p[1], name |-> p[2], dir2 |-> p[3], name2 |-> p[4], rf |-> p[5]] : p \in RenameArgs}
-    \cup [op : {"socket"}, kind : 0..1, proto : {0}, h : {2}]
-    \cup {[op |-> "socket", kind |-> 1, proto |-> 17, h |-> 2], [op |-> "socket", kind |-> 1, proto |-> 6, h |-> 2]}  \* udp ok, tcp on a datagram socket refused
+    \* sfl: the four combinations of SOCK_CLOEXEC / SOCK_NONBLOCK (seen in the new descriptor's flags)
+    \cup [op : {"socket"}, kind : 0..1, proto : {0}, h : {2}, sfl : 0..3]
+    \cup {[op |-> "socket", kind |-> 1, proto |-> 17, h |-> 2, sfl |-> 2], [op |-> "socket", kind |-> 1, proto |-> 6, h |-> 2, sfl |-> 0]}  \* udp ok, tcp on a datagram socket refused
     \cup [op : {"timeout"}, abs : 0..3]            \* relative 1 ms / absolute long past / absolute 40 ms ahead / relative 40 ms
     \cup [op : {"poll"}, h : 0..1, ev : 0..1]            \* always ready (or EBADF): a poll that never fires never completes
     \cup [op : {"poll"}, h : {2}, ev : {1}]
@@ -79,7 +82,12 @@ BufClash(a, b) == \/ Has(a, "buf") /\ Has(b, "buf") /\ a.buf = b.buf
 \* everything that adds or removes names
 HandleStat(o) == o.op = "statx" /\ Has(o, "empty")
 ChangesNames(o) == o.op \in {"unlinkat", "renameat", "mkdirat"} \/ (o.op = "openat" /\ o.fl \in {1, 2})
+\* the descriptor behind dir = 1 stays open on the directory that was `d` wherever renames have moved it since
+\* (d -> nx -> f0 are possible): what goes through it conflicts with every name-changing operation on those names
+UsesD(o) == Dflt(o, "dir") = 1 \/ (Has(o, "dir2") /\ o.dir2 = 1)
+MovesDirNames(o) == ChangesNames(o) /\ NamesOf(o) \cap {0, 2, 3} # {}
 Conflict(a, b) ==
+    \/ (UsesD(a) /\ MovesDirNames(b)) \/ (UsesD(b) /\ MovesDirNames(a))
     \/ (HandleStat(a) /\ ChangesNames(b)) \/ (HandleStat(b) /\ ChangesNames(a))
     \/ Has(a, "h") /\ Has(b, "h") /\ a.h = b.h
     \/ \E x \in NamesOf(a), y \in NamesOf(b) : NameConflict(x, y)
